@@ -170,6 +170,26 @@ fn conn_frames() -> Vec<Vec<Vec<u8>>> {
         }
         conns.push(f);
     }
+    // a connection whose every frame is as large as its headers allow: 40 bytes of IPv4 options and 40 bytes of TCP options
+    // on the SYN, the SYN+ACK and a data segment that carries a request (Ethernet framed: 14 + 60 + 60 header bytes), and
+    // a response in a 9000-byte jumbo segment -- a pool must analyse the bytes it was handed, all of them
+    {
+        let full_opts = |flags: u8| -> Vec<u8> {
+            let mut o = if flags & SYN != 0 { vec![2, 4, 5, 0xb4, 4, 2, 8, 10, 0, 0, 0, 9, 0, 0, 0, 0, 1, 3, 3, 7] } else { vec![1, 1, 8, 10, 0, 0, 0, 9, 0, 0, 0, 7] };
+            while o.len() < 40 {
+                o.push(1);
+            }
+            o
+        };
+        let mk = |from_client: bool, flags: u8, seq: u32, payload: &[u8], ipw: u8| {
+            let (src, sport, dst, dport) = if from_client { (61u8, 47000u16, 62u8, 80u16) } else { (62, 80, 61, 47000) };
+            pkt::frame(pkt::Link::Ethernet, &pkt::build(&Spec { src, sport, dst, dport, flags, seq, ack: if flags & ACK != 0 { 1 } else { 0 }, ip_opt_words: ipw, opts: full_opts(flags), payload: payload.to_vec(), ..Spec::default() }))
+        };
+        let req = b"GET /full HTTP/1.1\r\nHost: full.example\r\nUser-Agent: full-headers\r\nAccept: */*\r\n\r\n";
+        let mut resp = b"HTTP/1.1 200 OK\r\nServer: jumbo\r\nContent-Type: text/html\r\n\r\n".to_vec();
+        resp.resize(8900, b'j');
+        conns.push(vec![mk(true, SYN, 1000, &[], 10), mk(false, SYN | ACK, 5000, &[], 10), mk(true, ACK | PSH, 1001, req, 10), mk(true, ACK | PSH, 1001 + req.len() as u32, b"x", 10), mk(false, ACK | PSH, 5001, &resp, 0)]);
+    }
     conns
 }
 /// round-robin interleaving of the connections' packets (each connection keeps its order)
@@ -630,7 +650,7 @@ pub fn run(thorough: bool) -> Outcome {
     budget_route(&mut r);
     Outcome {
         report: r,
-        rule: "routing: every ordered same-family pair of 144 endpoints (12 IPv4 + 6 IPv6 addresses with all bytes varied x 8 ports), raw and Ethernet, x worker counts: SYN, SYN+ACK, request, response, further segment and FIN of a connection on one HTTP worker; all client segments on one TLS worker; everything a host sends on one TCP worker. pools: a 12-connection interleaved trace through real TCP / HTTP / TLS pools for worker counts x batch {1,2,32} x timeout {1,10} ms (schedules sampled, not enumerated) compared with the sequential analyzers as multiset and per connection / sender order; configured route: with_config + init_pool + worker_pool of each analyzer with 12 simultaneously open connections, queue size 4, capacity 64 (TCP: timestamped SYN and ACK one second apart under the injected clock), lock-step dispatch, results equal to the sequential analyzer; pcap route: with_config (+ init_pool) + analyze_pcap of each analyzer on the 12-connection trace written to a capture file, queue larger than the trace, worker counts x batch {1,2,32} x timeout {1,10} ms x repeated rounds (schedules sampled), results equal as a multiset to the same analyzer's sequential analyze_pcap; budget route: 4 connections that the tree's hash sends to one worker, open at the same time, max_connections = 4, workers {2,4,16}: parallel mode (HTTP / TLS through analyze_pcap incl. the pool the TLS analyzer builds itself, TCP lock-step under the injected clock) equals sequential; distinct = distinct routing / delivery outcomes".into(),
+        rule: "routing: every ordered same-family pair of 144 endpoints (12 IPv4 + 6 IPv6 addresses with all bytes varied x 8 ports), raw and Ethernet, x worker counts: SYN, SYN+ACK, request, response, further segment and FIN of a connection on one HTTP worker; all client segments on one TLS worker; everything a host sends on one TCP worker. pools: a 13-connection interleaved trace (one connection with 40 bytes of IPv4 options and 40 bytes of TCP options on every frame incl. data segments, and a 9000-byte response) through real TCP / HTTP / TLS pools for worker counts x batch {1,2,32} x timeout {1,10} ms (schedules sampled, not enumerated) compared with the sequential analyzers as multiset and per connection / sender order; configured route: with_config + init_pool + worker_pool of each analyzer with 12 simultaneously open connections, queue size 4, capacity 64 (TCP: timestamped SYN and ACK one second apart under the injected clock), lock-step dispatch, results equal to the sequential analyzer; pcap route: with_config (+ init_pool) + analyze_pcap of each analyzer on the 12-connection trace written to a capture file, queue larger than the trace, worker counts x batch {1,2,32} x timeout {1,10} ms x repeated rounds (schedules sampled), results equal as a multiset to the same analyzer's sequential analyze_pcap; budget route: 4 connections that the tree's hash sends to one worker, open at the same time, max_connections = 4, workers {2,4,16}: parallel mode (HTTP / TLS through analyze_pcap incl. the pool the TLS analyzer builds itself, TCP lock-step under the injected clock) equals sequential; distinct = distinct routing / delivery outcomes".into(),
         exhaustive: true,
         bounds: json!({"endpoints": endpoints().len(), "note": "the pool part samples schedules; schedule coverage comes from the loom engine"}),
     }
